@@ -33,8 +33,11 @@ type JSONPayload struct {
 	DiscProp    string     `json:"discProp,omitempty"`
 	VariantKeys [][]string `json:"variantKeys,omitempty"`
 	Ambiguous   bool       `json:"ambiguous,omitempty"` // the state has an undiscriminated oneOf (variant choice may be ambiguous)
-	BodyOp      string     `json:"bodyOp,omitempty"`    // path of a POST operation whose JSON body is the schema
-	RespOp      string     `json:"respOp,omitempty"`    // path of a GET operation answering 200 with the schema
+	// OneOfOrder: for a top-level oneOf, the alternatives in document order as the names their Go fields
+	// derive from (component name for a $ref, "OneOf<i>" for an inline alternative)
+	OneOfOrder []string `json:"oneOfOrder,omitempty"`
+	BodyOp     string   `json:"bodyOp,omitempty"` // path of a POST operation whose JSON body is the schema
+	RespOp     string   `json:"respOp,omitempty"` // path of a GET operation answering 200 with the schema
 }
 
 var tMarshaler = reflect.TypeOf((*json.Marshaler)(nil)).Elem()
@@ -91,6 +94,12 @@ func jsonProp(p *Pkg, _ *Pkg, payload json.RawMessage, res *Result) {
 	switch pl.Mode {
 	case "C06", "C07":
 		e := &valEnum{p: p, cap: pl.Cap, discProp: pl.DiscProp, variantKeys: pl.VariantKeys}
+		if len(pl.OneOfOrder) > 0 {
+			e.variantOrder = map[string]int{}
+			for i, n := range pl.OneOfOrder {
+				e.variantOrder[NormName(n)] = i
+			}
+		}
 		vals := e.Enum(t, 0)
 		if e.capHit {
 			res.Count("value-cap-hit", 1)
